@@ -80,8 +80,17 @@ def case_1d(ctx, index, rng: random.Random):
         kw = {"keep_missed": keep_missed}
         if dtype:
             kw["dtype"] = dtype
-        how = rng.randrange(3)
-        if how == 0:
+        how = rng.randrange(4)
+        if how == 3 and not int_gap:
+            kt = dict(kw)
+            if gapped:
+                kt["dtype"] = "float64"
+            t = physt.h1(np.asarray([v for v in data[: max(1, n // 2)] if not math.isnan(v)], dtype=float), bins_arr.copy(), **kt)
+            t = t.copy(include_frequencies=False)  # the emptied copy of a filled histogram
+            if gapped and not dtype and not float_contents:
+                return Histogram1D(binnings.StaticBinning(bins_arr.copy()), **kw)
+            return t
+        if how in (0, 3):
             return Histogram1D(binnings.StaticBinning(bins_arr.copy()), **kw)
         if how == 1:
             return physt.h1(None, bins_arr.copy(), **kw)
@@ -210,8 +219,11 @@ def case_nd(ctx, index, rng: random.Random):
     axes = []
     for ax in range(d):
         nb = rng.randint(1, 5)
-        if rng.random() < 0.25:
+        r = rng.random()
+        if r < 0.2:
             pairs = gen.gapped_pairs(rng, max(2, nb))
+        elif r < 0.3:
+            pairs = gen.tiny_gapped_pairs(rng, max(2, nb))
         else:
             pairs = gen.pairs_from_edges(gen.edges(rng, nb))
         closed = rng.random() < 0.5
@@ -235,6 +247,12 @@ def case_nd(ctx, index, rng: random.Random):
 
     def fresh():
         klass = Histogram2D if d == 2 else HistogramND
+        if rng.random() < 0.3:
+            # the emptied copy of a filled histogram is a starting point as good as a new one
+            t = klass(mkbins(), keep_missed=keep_missed)
+            if n:
+                t.fill_n(rows[: max(1, n // 2)].copy())
+            return t.copy(include_frequencies=False)
         return klass(mkbins(), keep_missed=keep_missed)
 
     finals = {}
